@@ -105,15 +105,11 @@ theorem phaseNameOf_nonempty (i : Nat) (n : Str) (h : n ≠ []) : phaseNameOf i 
   | nil => exact absurd rfl h
   | cons a r => simp [phaseNameOf]
 
-theorem name_ne_nil_of_single (n : Str) (h : splitWs n = [n]) : n ≠ [] := by
-  rintro rfl
-  simp [splitWs, splitWsAux] at h
-
 theorem phaseBlocks_spec (k : Nat) (pl : List PhaseInfo)
-    (hname : ∀ p ∈ pl, splitWs p.name = [p.name]) (hpg : ∀ p ∈ pl, symOk p.pg = true) :
+    (hname : ∀ p ∈ pl, p.name ≠ [] ∧ joinSp (splitWs p.name) = p.name) (hpg : ∀ p ∈ pl, symOk p.pg = true) :
     ∃ bs : List Blk, phaseBlocks angWriter k pl = some (bs.map Blk.lines)
       ∧ bs.map Blk.phase = quantPhases properSubgroup k pl
-      ∧ (∀ b ∈ bs, b.name ≠ [])
+      ∧ (∀ b ∈ bs, b.nameOK)
       ∧ (∀ b ∈ bs, resolvePG angReader.aliases angReader.groups b.sym = some b.pg) := by
   induction pl generalizing k with
   | nil => exact ⟨[], rfl, rfl, by simp, by simp⟩
@@ -121,7 +117,7 @@ theorem phaseBlocks_spec (k : Nat) (pl : List PhaseInfo)
     obtain ⟨bs, h1, h2, h3, h4⟩ := ih (k + 1) (fun q hq => hname q (by simp [hq]))
       (fun q hq => hpg q (by simp [hq]))
     have hn := hname p (by simp)
-    have hne := name_ne_nil_of_single _ hn
+    have hne := hn.1
     have hs := hpg p (by simp)
     unfold symOk at hs
     cases hsym : symmetryOf angWriter p.pg with
@@ -129,14 +125,14 @@ theorem phaseBlocks_spec (k : Nat) (pl : List PhaseInfo)
     | some s =>
       simp only [hsym, beq_iff_eq] at hs
       refine ⟨{ id := k, name := p.name, sym := s, pg := quantPG p.pg, lat := p.lattice } :: bs, ?_, ?_, ?_, ?_⟩
-      · simp [phaseBlocks, phaseBlock, hsym, h1, phaseNameOf_nonempty k _ hne, hn, Blk.lines]
+      · simp [phaseBlocks, phaseBlock, hsym, h1, phaseNameOf_nonempty k _ hne, Blk.lines]
       · simp only [List.map_cons, quantPhases, h2]
         congr 1
         simp [Blk.phase, quantPhase, phaseNameOf_nonempty k _ hne, quantPG]
         cases p.pg <;> rfl
       · intro b hb
         rcases List.mem_cons.1 hb with rfl | hb
-        · exact hne
+        · exact hn
         · exact h3 b hb
       · intro b hb
         rcases List.mem_cons.1 hb with rfl | hb
